@@ -165,7 +165,27 @@ def listSampler : Sampler (List Nat × List Nat) where
     | [] => none
     | d :: r => some (d, (s.1, r))
 
-/-- non-vacuity (hypothesis `LenBounded` is satisfiable, the run is non-trivial): paranoid
+/-- the constant sample stream: every length sample is `t`, every IAT sample `d` -/
+def constSampler (t d : Nat) : Sampler Unit := ⟨fun _ => some (t, ()), fun _ => some (d, ())⟩
+
+/-- non-vacuity of `LenBounded` (hypothesis of the theorems above and below) -/
+example : LenBounded (constSampler 700 3) := by
+  intro s t s' h
+  simp only [constSampler, Option.some.injEq, Prod.mk.injEq] at h
+  have : mss = 1448 := by decide
+  omega
+
+/-- non-vacuity of the hypotheses of `only_zero_table_never_finishes` and
+    `single_value_table_pads_forever` (constant streams 0 and 10) -/
+example : (∀ s t s', (constSampler 0 3).len s = some (t, s') → t = 0) ∧
+    (∀ s t s', (constSampler 10 3).len s = some (t, s') → t = 10) ∧
+    (mss + headerLength) % 10 ≠ 0 ∧ 10 - (mss + headerLength) % 10 ≤ headerLength := by
+  refine ⟨?_, ?_, by decide, by decide⟩ <;>
+  · intro s t s' h
+    simp only [constSampler, Option.some.injEq, Prod.mk.injEq] at h
+    omega
+
+/-- non-vacuity (the run is non-trivial): paranoid
     `Write(100)` with length samples 0, 50, 300 and delays 7, 9: the 0 is skipped, 50 bytes are
     written, then the remaining 71 bytes are padded to 300 with one 229-byte frame and written. -/
 example : ((write listSampler true iatParanoid 100 10 ([0, 50, 300], [7, 9])).status,
